@@ -1,6 +1,6 @@
 """C17 replay driver: concrete inputs through the REAL vizier functions (under /venv/bin/python).
 
-usage: c17_replay.py <job.json> | --json '<job>' | findings | standin_regex [maxlen] | standin_conditional [depth [rotations]] | end_to_end
+usage: c17_replay.py <job.json> | --json '<job>' | findings | standin_regex [maxlen] | standin_conditional [depth [rotations]] | standin_multi_parent | end_to_end
 Prints one JSON line and REPRODUCED / NOT-REPRODUCED (REPRODUCED = the real code violates the clause on this input).
 The oracles are independent plain-Python statements of the property.
 """
@@ -362,6 +362,84 @@ def standin_conditional(depth=3, rotations=(0, 1, 2, 3), wire_every=5):
     return {'spaces': spaces, 'trials': trials, 'n_failures': n_bad, 'failures': fails, 'depth': depth}
 
 
+def standin_multi_parent():
+    """children declared under SEVERAL parent values in ONE declaration (factory(children=[([v1, v2], child)]), and the
+    same space after a StudyConfig.to_proto/from_proto round trip = ConditionalParameterSpec with several parent values):
+    a trial whose child is active under ANY of the declared values is presented; under another value it is an error."""
+    from vizier.service import pyvizier as vz
+    F = pc_lib.ParameterConfig.factory
+    leaf = lambda n: F(n, bounds=(0.0, 1.0))
+    disc = lambda n: F(n, feasible_values=[8.0, 16.0], external_type=trial_lib.ExternalType.INTEGER)
+    deep = F('opt', feasible_values=['x', 'y', 'z'], children=[(['x', 'z'], leaf('mom'))])
+    parents = [
+        # (config, {parent value: [active child names]}, presented types)
+        (F('model', feasible_values=['dnn', 'linear', 'tree'],
+           children=[(['dnn', 'linear'], leaf('lr')), (['linear', 'tree'], disc('batch')), (['tree'], leaf('depth')), (['dnn', 'tree'], deep)]),
+         {'dnn': ['lr', 'opt'], 'linear': ['lr', 'batch'], 'tree': ['batch', 'depth', 'opt']}),
+        (F('layers', bounds=(1, 3), children=[([2, 3], leaf('skip')), ([1, 3], leaf('wide'))]),
+         {1: ['wide'], 2: ['skip'], 3: ['skip', 'wide']}),
+        (F('d', feasible_values=[1.0, 2.0, 4.0], children=[([4.0, 1.0], leaf('dd'))]),
+         {1.0: ['dd'], 2.0: [], 4.0: ['dd']}),
+        (F('flag', feasible_values=['False', 'True'], external_type=trial_lib.ExternalType.BOOLEAN,
+           children=[(['True', 'False'], leaf('both'))]),
+         {'True': ['both'], 'False': ['both']}),
+    ]
+    stored = {'lr': 0.25, 'batch': 16.0, 'depth': 0.5, 'mom': 0.75, 'skip': 0.1, 'wide': 0.2, 'dd': 0.3, 'both': 0.4}
+    all_children = {'model': ['lr', 'batch', 'depth', 'opt'], 'layers': ['skip', 'wide'], 'd': ['dd'], 'flag': ['both']}
+    cases, fails = 0, []
+    for cfg, active in parents:
+        space = pc_lib.SearchSpace()
+        space.add(cfg)
+        sc = _study_config(space)
+        scs = [('factory', sc)]
+        rt = outcome(lambda: vz.StudyConfig.from_proto(sc.to_proto()))
+        if rt['raised'] is None:
+            scs.append(('proto round trip', rt['value']))
+        else:
+            fails.append({'space': cfg.name, 'proto_round_trip': rt['raised']})
+        for how, cur in scs:
+            for pv, kids in active.items():
+                variants = [{}]
+                if 'opt' in kids:
+                    variants = [{'opt': 'x', 'mom': stored['mom']}, {'opt': 'y'}, {'opt': 'z', 'mom': stored['mom']}]
+                for extra in variants:
+                    params = {cfg.name: pv}
+                    params.update({k: stored[k] for k in kids if k != 'opt'})
+                    params.update(extra)
+                    for via_wire in (False, True):
+                        cases += 1
+                        tr = vz.Trial(parameters=params)
+                        out = outcome((lambda: cur.trial_parameters(vz.TrialConverter.to_proto(tr))) if via_wire else (lambda: cur._pytrial_parameters(tr)))
+                        ok = out['raised'] is None and set(out['value']) == set(params)
+                        if ok:
+                            for n, v in params.items():
+                                shown = out['value'][n]
+                                if n == 'batch':
+                                    ok = ok and type(shown) is int and same_number(shown, v)
+                                elif n == 'flag':
+                                    ok = ok and type(shown) is bool and shown is (v == 'True')
+                                elif isinstance(v, str):
+                                    ok = ok and shown == v
+                                else:
+                                    ok = ok and same_number(shown, v)
+                        if not ok and len(fails) < 6:
+                            fails.append({'space': how, 'wire': via_wire, 'parameters': repr(params), 'expected': 'presented',
+                                          'got': out['raised'] or repr(out['value'])})
+                        # one child that is not active under this parent value: an error
+                        for n in all_children[cfg.name]:
+                            if n not in kids:
+                                cases += 1
+                                bad = dict(params)
+                                bad[n] = 'x' if n == 'opt' else stored[n]
+                                tr2 = vz.Trial(parameters=bad)
+                                out2 = outcome((lambda: cur.trial_parameters(vz.TrialConverter.to_proto(tr2))) if via_wire else (lambda: cur._pytrial_parameters(tr2)))
+                                if out2['raised'] != 'ValueError' and len(fails) < 6:
+                                    fails.append({'space': how, 'wire': via_wire, 'parameters': repr(bad), 'expected': 'ValueError (inactive child)',
+                                                  'got': out2['raised'] or repr(out2['value'])})
+                                break
+    return {'cases': cases, 'n_failures': len(fails), 'failures': fails}
+
+
 def end_to_end():
     """clients.Trial.parameters through a local RAM service (the wire): flat space with every builder kind,
     multi-dimensional names, and a conditional space."""
@@ -455,6 +533,9 @@ def main(argv):
         bad = bool(res['n_failures'])
     elif argv[0] == 'standin_conditional':
         res = standin_conditional(int(argv[1]) if len(argv) > 1 else 3, tuple(int(c) for c in argv[2]) if len(argv) > 2 else (0, 1, 2, 3))
+        bad = bool(res['n_failures'])
+    elif argv[0] == 'standin_multi_parent':
+        res = standin_multi_parent()
         bad = bool(res['n_failures'])
     elif argv[0] == 'end_to_end':
         res = end_to_end()
